@@ -1,6 +1,6 @@
 (* C10 driver.
    T <idx> <hexname>:<kind>:<hexdefault>,...                          flag table number idx of the harness (must equal nth idx c10_tables)
-   E <idx> <intsize> <vec> <class> <detail> <args> <help 0|1> <fields> one Parse; vec/args/fields = comma separated hex tokens, "." = empty list *)
+   E <idx> <intsize> <mode P0|P1|F|FT> <unchanged 0|1> <vec> <class> <detail> <args> <help 0|1> <fields> one Parse; vec/args/fields = comma separated hex tokens, "." = empty list *)
 let toks_of s = if s = "." then [] else List.map bytes_of_hex (String.split_on_char ',' s)
 let kind_name = function
   | KBool -> "bool" | KInt -> "int" | KInt64 -> "int64" | KUint -> "uint" | KUint64 -> "uint64"
@@ -18,13 +18,13 @@ let () =
         if i < 0 || i >= Array.length tables || t <> table_text tables.(i) then begin
           incr mismatch; Printf.printf "MISMATCH %s expected-table=%s\n" line (if i >= 0 && i < Array.length tables then table_text tables.(i) else "none") end
         else seen.(i) <- true
-    | ["E"; idx; isz; vec; cls; detail; args; help; fields] ->
+    | ["E"; idx; isz; mode; unchanged; vec; cls; detail; args; help; fields] ->
         incr cases;
         let i = int_of_string idx in
         if i < 0 || i >= Array.length tables || not seen.(i) then begin
           incr mismatch; Printf.printf "MISMATCH %s no-table\n" line end
         else begin
-        let v = check_case (n_of_int (int_of_string isz)) tables.(i) (toks_of vec) (n_of_int (int_of_string cls)) (bytes_of_hex detail)
+        let v = check_case (n_of_int (int_of_string isz)) tables.(i) (n_of_int (if mode = "P1" then 1 else 0)) (unchanged = "1") (toks_of vec) (n_of_int (int_of_string cls)) (bytes_of_hex detail)
                   (toks_of args) (help = "1") (toks_of fields) in
         if v.v_lenient then incr lenient;
         if not (verdict_ok v) then begin
